@@ -38,7 +38,37 @@ func runC06(w *World) {
 		return
 	}
 	p := s.P
-	c := s.E.OpenConn(p, dir, time.Minute)
+	// Optionally a previous session with another remote hold time, ended by a
+	// plain TCP close: the hold time in force is per session (the outbound FSM
+	// object is reused across sessions).
+	prior := -1
+	if w.Chance(2, 5, "prior") {
+		prior = holds[w.Draw(len(holds), "priorhold")]
+		if prior < 0 {
+			prior = w.Range(3, 65535, "priorholdr")
+		}
+		pc := s.E.OpenConn(p, dir, time.Minute)
+		if pc == nil {
+			w.HarnessError("C06: no connection for the prior session")
+			return
+		}
+		p.Speaker.Hold = uint16(prior)
+		_, err := s.E.Advance(p, pc, StEstablished, time.Minute)
+		p.Speaker.Hold = uint16(rh)
+		if err != nil {
+			w.Probe("prior-session-failed")
+			s.E.FinishRun()
+			return
+		}
+		if w.Chance(1, 2, "priorwrite") && writer != nil {
+			writer.WriteUpdate([]byte{9, 9, 9, 9})
+		}
+		pc.FIN()
+		w.Quiesce()
+		w.Probe("prior-session")
+	}
+	nest0 := p.Plug.NEst
+	c := s.E.OpenConn(p, dir, 7*time.Hour)
 	if c == nil {
 		w.HarnessError("C06: no connection")
 		return
@@ -75,7 +105,7 @@ func runC06(w *World) {
 	established := false
 	if stage != 0 {
 		deliver(KeepaliveFrame())
-		if !w.WaitUntil("c06.est", time.Minute, func() bool { return p.Plug.NEst == 1 }) {
+		if !w.WaitUntil("c06.est", time.Minute, func() bool { return p.Plug.NEst == nest0+1 }) {
 			w.Violate("C06/not-established", "hold times (%d,%d): no OnEstablished after a complete OPEN/KEEPALIVE exchange", lh, rh)
 			return
 		}
@@ -84,6 +114,14 @@ func runC06(w *World) {
 		w.Quiesce()
 		// local WriteUpdate pattern
 		wp := w.Draw(4, "wpattern")
+		if wp > 0 && hs == 0 {
+			// zero hold time: local writes must not start any periodic KEEPALIVEs
+			for i, n := 0, w.Range(1, 3, "zwrites"); i < n; i++ {
+				writer.WriteUpdate([]byte{0, 0, 0, byte(i)})
+				w.Sleep(time.Duration(w.Range(0, 2000, "zwms")) * time.Millisecond)
+			}
+			w.Probe("zero-hold-local-writes")
+		}
 		if wp > 0 && hs > 0 {
 			per := H / time.Duration(Pick(w, "wper", 6, 3, 2, 1))
 			w.Go("local-writer", func() {
@@ -151,9 +189,10 @@ func runC06(w *World) {
 	}
 	w.Quiesce()
 	fs := c.AllFrames()
-	w.Rel(fmt.Sprintf("%d,%d|%d|%s|%d|%v|%s", lh, rh, stage, pattern, nremote, c.LocalClosed(), dir))
+	w.Rel(fmt.Sprintf("%d,%d|%d|%s|%d|%v|%s|%d", lh, rh, stage, pattern, nremote, c.LocalClosed(), dir, prior))
 	w.Sample["hold_local_remote"] = fmt.Sprintf("%d/%d -> %d", lh, rh, hs)
 	w.Sample["stage"] = map[bool]string{true: "Established", false: "OpenConfirm"}[established]
+	w.Sample["prior_session_remote_hold"] = prior
 	w.Sample["remote_pattern"] = pattern
 	w.Sample["remote_messages_after_handshake"] = nremote
 	w.Sample["frames_from_corebgp"] = len(fs)
@@ -165,7 +204,7 @@ func runC06(w *World) {
 	}
 	if hs == 0 {
 		// (e) zero hold time: nothing periodic, nothing expires
-		if c.LocalClosed() || p.Plug.NClose != 0 {
+		if c.LocalClosed() || p.Plug.NClose != p.Plug.NEst-1 && established || c.LocalClosed() {
 			w.Violate("C06/zero-holdtime/expired-"+stName, "negotiated hold time 0 (local %d, remote %d) but the session was torn down after silence; frames %s", lh, rh, descFrames(fs))
 			return
 		}
@@ -177,7 +216,7 @@ func runC06(w *World) {
 		}
 		if !established {
 			deliver(KeepaliveFrame())
-			if !w.WaitUntil("c06.est0", time.Minute, func() bool { return p.Plug.NEst == 1 }) {
+			if !w.WaitUntil("c06.est0", time.Minute, func() bool { return p.Plug.NEst == nest0+1 }) {
 				w.Violate("C06/zero-holdtime/not-established", "hold time 0: no OnEstablished after 24 h in OpenConfirm and the remote's KEEPALIVE")
 				return
 			}
@@ -199,6 +238,13 @@ func runC06(w *World) {
 		if err := writer.WriteUpdate([]byte{1, 1, 1, 1}); err != nil || c.NFrames() != nf+1 {
 			w.Violate("C06/zero-holdtime/updates-stop", "hold time 0: WriteUpdate after 24 h of silence failed (%v)", err)
 			return
+		}
+		w.Sleep(time.Hour)
+		for _, f := range NewFrames(c, nf+1) {
+			if f.Type == MsgKeepalive || f.Type == MsgNotification {
+				w.Violate("C06/zero-holdtime/periodic-after-write", "negotiated hold time 0 but corebgp sent %s at %v after a local WriteUpdate", f.String(), f.At)
+				return
+			}
 		}
 		s.E.FinishRun()
 		return
